@@ -7,7 +7,9 @@ A control arm (load_unsafe_extensions=True with a project-local `gi`) must leave
 otherwise the monitor is blind and the case is inconclusive."""
 import os
 import random
+import re
 import sys
+import zipfile
 
 import jedi
 
@@ -74,9 +76,40 @@ def worker_init():
     _G['installed'] = True
 
 
+SENTINEL_CODE = (
+    "import os as _os, sys as _sys\n"
+    "def _who():\n"
+    "    f = _sys._getframe(1).f_back\n"
+    "    while f is not None and 'importlib' in f.f_code.co_filename:\n"
+    "        f = f.f_back\n"
+    "    return '%%s\\t%%s' %% (f.f_code.co_filename, f.f_code.co_name) if f is not None else '?\\t?'\n"
+    "_f = open(_os.path.join(%r, %r), 'w'); _f.write('%%d\\t%%s' %% (_os.getpid(), _who())); _f.close()\n"
+    "del _f, _who\n")
+
+
 def _body(sentinel_dir, uid, defs):
-    return ("import os as _os\n_f = open(_os.path.join(%r, %r), 'w'); _f.write('ran'); _f.close()\n"
-            % (sentinel_dir, uid)) + defs
+    return SENTINEL_CODE % (sentinel_dir, uid) + defs
+
+
+def norm_importer(filename, func):
+    """Mechanism name for 'who imported a project file': the innermost frame outside importlib,
+    with the installation prefix cut off and all codec modules of the encodings package folded
+    into one name (every one of them is reached through the same codec lookup)."""
+    fn = str(filename).replace('\\', '/')
+    if _G['root'] and fn.startswith(_G['root']):
+        return '<another project file>:' + func
+    if '/encodings/' in fn:
+        return 'encodings/<codec module>:' + func
+    for marker in ('/site-packages/', '/jedi/', '/parso/'):
+        if marker in fn:
+            rel = fn.split(marker)[-1]
+            if marker in ('/jedi/', '/parso/'):
+                rel = marker.strip('/') + '/' + rel
+            return rel + ':' + func
+    m = re.search(r'/lib/python\d+\.\d+/(.*)$', fn)
+    if m:
+        return m.group(1) + ':' + func
+    return os.path.basename(fn) + ':' + func
 
 
 C_SOURCE = r'''
@@ -115,12 +148,20 @@ def build_project(root, sentinel_dir, rnd, helper_modules, with_compiled=False):
     add('pkg/sub.py', 'def sub_fn(): return 1\nclass SubCls: pass\n')
     add('pkg/conftest.py', 'import pytest\n@pytest.fixture\ndef inner_fixture(): return 2\n')
     add('test_it.py', 'def test_x(my_fixture, plug_fixture):\n    my_fixture\n')
+    # a project-local setuptools (a start-up finder of the analysing interpreter's own setuptools,
+    # _distutils_hack, imports setuptools._distutils when somebody looks for distutils)
+    add('setuptools/__init__.py', 'SETUPTOOLS = 1\n')
+    add('setuptools/_distutils/__init__.py', 'DISTUTILS = 1\n')
     # names of standard-library modules that nobody has imported yet
     cands = [m for m in sorted(sys.stdlib_module_names)
              if not m.startswith('_') and m not in sys.modules and m not in helper_modules
              and m not in ('this', 'antigravity', 'idlelib', 'tkinter', 'turtle', 'turtledemo',
                            'test', 'lib2to3', 'ensurepip', 'venv', 'pydoc_data')]
     shadow = rnd.sample(cands, min(len(cands), rnd.randint(8, 30)))
+    # modules that codec modules of the encodings package import when a codec is first looked up
+    for m in ('quopri', 'stringprep', 'bz2', 'uu'):
+        if m in cands and m not in shadow and rnd.random() < 0.8:
+            shadow.append(m)
     for m in shadow:
         add(m + '.py', 'SHADOW = %r\ndef shadow_fn(): pass\n' % m)
     # compiled modules in the project: a C extension and a source-less .pyc, both writing a
@@ -146,6 +187,15 @@ def build_project(root, sentinel_dir, rnd, helper_modules, with_compiled=False):
         if r.returncode == 0:
             compiled.append('somod')
     files['__compiled__'] = ','.join(compiled)
+    # a zip archive (meant for sys.path) whose modules carry coding cookies of rarely used codecs
+    with zipfile.ZipFile(os.path.join(root, 'lib.zip'), 'w') as z:
+        codecs_ = ['idna', 'bz2', 'punycode', 'uu', 'rot13', 'latin-1', 'utf-8', 'cp1252', 'hex', 'zlib', 'utf-16']
+        # zmod0 is asked about first: a sub-module lookup (zpkg.inner) does not swap sys.path, and
+        # once a codec has been looked up the interpreter never imports its module again
+        for i, codec in enumerate(['quopri'] + rnd.sample(codecs_, 4)):
+            z.writestr('zmod%d.py' % i, '# -*- coding: %s -*-\nZ%d = 1\ndef zfn(): pass\n' % (codec, i))
+        z.writestr('zpkg/__init__.py', 'ZP = 1\n')
+        z.writestr('zpkg/inner.py', '# coding: %s\nZI = 1\n' % rnd.choice(codecs_))
     with open(os.path.join(root, 'evil.pth'), 'w') as f:
         f.write("import os; open(os.path.join(%r, 'PTH'), 'w').write('ran')\n" % sentinel_dir)
     compiled_names = files.pop('__compiled__').split(',') if files.get('__compiled__') else []
@@ -191,12 +241,28 @@ def compare_state(rec, before, root, w):
 def check_after(rec, sentinel_dir, root, w, helper_log_pos):
     rec.ev('c12:queries_monitored')
     s = os.listdir(sentinel_dir)
-    if s:
-        rec.violate('c12:sentinel', 'project code ran: sentinels %s' % sorted(s)[:5], **w)
-        for x in s:
-            os.unlink(os.path.join(sentinel_dir, x))
+    for x in sorted(s):
+        fp = os.path.join(sentinel_dir, x)
+        try:
+            with open(fp) as f:
+                parts = f.read().split('\t')
+        except OSError:
+            parts = []
+        os.unlink(fp)
+        if len(parts) == 3:
+            where = 'host' if parts[0] == str(os.getpid()) else 'helper'
+            key = 'c12:sentinel:%s:imported_by:%s' % (where, norm_importer(parts[1], parts[2]))
+        elif x == 'PTH':
+            key = 'c12:sentinel:pth_line_executed'
+        else:
+            key = 'c12:sentinel:compiled_module_initialised'
+        rec.violate(key, 'project code ran: sentinel %s written (%s)' % (x, parts), **w)
     if _G['events']:
-        rec.violate('c12:host_audit_event', 'host audit events for project files: %s' % _G['events'][:4], **w)
+        hard = [e for e in _G['events'] if e[0] != 'compile']
+        if hard:
+            rec.violate('c12:host_audit_event', 'host audit events for project files: %s' % hard[:4], **w)
+        if len(hard) < len(_G['events']):
+            rec.ev('c12:host_compile_of_project_source_logged')
         del _G['events'][:]
     log = _G['helper_log']
     if os.path.exists(log):
@@ -204,8 +270,18 @@ def check_after(rec, sentinel_dir, root, w, helper_log_pos):
             f.seek(helper_log_pos[0])
             for line in f:
                 parts = line.rstrip('\n').split('\t')
-                if len(parts) == 3 and parts[1] in ('import', 'exec', 'compile') and root in parts[2]:
-                    rec.violate('c12:helper_audit_event', 'helper audit event: %s' % parts, **w)
+                if len(parts) < 3 or root not in parts[2]:
+                    continue
+                if parts[1] == 'compile':
+                    # compiling is neither importing nor executing (zipimport compiles the
+                    # source of a module it locates): recorded, not charged
+                    rec.ev('c12:helper_compile_of_project_source_logged')
+                elif parts[1] == 'exec':
+                    who = norm_importer(parts[3], parts[4]) if len(parts) >= 5 else '?'
+                    rec.violate('c12:helper_audit_event:exec:imported_by:' + who,
+                                'helper audit event: %s' % parts, **w)
+                elif parts[1] == 'import':
+                    rec.violate('c12:helper_audit_event:import', 'helper audit event: %s' % parts, **w)
             helper_log_pos[0] = f.tell()
         rec.ev('c12:helper_log_scanned')
 
@@ -224,8 +300,12 @@ def run(spec):
         os.makedirs(d, exist_ok=True)
     import verif_probe
     from jedi.api.environment import get_cached_default_environment
+    # the step that starts the helper process is monitored too (the previous case killed its helper)
+    before_spawn = snapshot()
     env = get_cached_default_environment()
     helper_modules = set(env._get_subprocess()._send(None, verif_probe.snapshot)['modules'])
+    compare_state(rec, before_spawn, base, {'case': spec['id'], 'phase': 'helper process started'})
+    rec.ev('c12:helper_start_monitored')
     files, shadow = build_project(root, sentinel_dir, rnd, helper_modules,
                                   with_compiled=spec.get('compiled', False))
     _G['root'] = root
@@ -234,12 +314,12 @@ def run(spec):
     mods = ['conftest', 'setup', 'sitecustomize', 'usercustomize', 'gi', 'mod', 'pkg', 'pkg.sub', 'plug'] + shadow
     rnd.shuffle(mods)
     mods = [m for m in ('somod', 'pycmod') if m in shadow] + [m for m in mods if m not in ('somod', 'pycmod')]
-    mods = mods[:14]
+    mods = mods[:14] + ['distutils', 'zmod0', 'zmod%d' % rnd.randint(1, 4), 'zpkg.inner']
     configs = [
         ('default', dict()),
         ('sys_path', dict(sys_path=[root] + [p for p in env.get_sys_path() if p])),
-        ('added', dict(added_sys_path=[root])),
-        ('nosmart', dict(smart_sys_path=False, added_sys_path=[root])),
+        ('added', dict(added_sys_path=[root, os.path.join(root, 'lib.zip')])),
+        ('nosmart', dict(smart_sys_path=False, added_sys_path=[root, os.path.join(root, 'lib.zip')])),
     ]
     locs = [os.path.join(root, 'buffer.py'), os.path.join(root, 'pkg', 'buffer.py'),
             os.path.join(root, 'test_buffer.py')]
@@ -254,6 +334,10 @@ def run(spec):
                          'import %s as al\nal.' % m, 'from %s import ' % m,
                          'from . import %s\n%s.' % (top, top)]
                 code = rnd.choice(forms)
+                special = m == 'distutils' or m.startswith(('zmod', 'zpkg'))
+                if special:
+                    # absolute forms whose completion needs the module itself
+                    code = rnd.choice([forms[0], forms[2], forms[3]])
                 if rnd.random() < 0.3:
                     code = 'def test_q(my_fixture, inner_fixture, plug_fixture):\n    my_fixture\n' + code
                 path = rnd.choice(locs)
@@ -264,8 +348,11 @@ def run(spec):
                 ok, s = apimon.call(rec, 'Script', jedi.Script, code, path=path, project=project, witness=w)
                 if not ok:
                     continue
-                for meth in rnd.sample(['complete', 'infer', 'goto', 'get_references', 'help',
-                                        'get_signatures', 'rename', 'search', 'get_names'], 4):
+                meths = rnd.sample(['complete', 'infer', 'goto', 'get_references', 'help',
+                                    'get_signatures', 'rename', 'search', 'get_names'], 4)
+                if special and 'complete' not in meths:
+                    meths[0] = 'complete'
+                for meth in meths:
                     if meth == 'goto':
                         apimon.call(rec, meth, s.goto, 1, len(lines[0]) - 1, follow_imports=True, witness=w)
                     elif meth == 'rename':
@@ -325,7 +412,7 @@ def run(spec):
             with open(_G['helper_log']) as f:
                 f.seek(helper_log_pos[0])
                 audit_seen = any(root in line and line.split('\t')[1] in ('import', 'exec', 'compile')
-                                 for line in f if line.count('\t') == 2)
+                                 for line in f if line.count('\t') >= 2)
         if audit_seen:
             rec.ev('c12:control_arm_helper_audit_seen')
         control_ok = control_ok and audit_seen
